@@ -7,6 +7,7 @@ package main
 // that the fallback to the package defaults is observed in-process.
 
 import (
+	"bytes"
 	"context"
 	"fmt"
 	"io"
@@ -103,6 +104,9 @@ func runC03(r *run) {
 	must(err)
 	defer os.Remove(outF.Name())
 	defer os.Remove(errF.Name())
+	fileW, err := os.CreateTemp("", "c03file")
+	must(err)
+	defer os.Remove(fileW.Name())
 	realOut, realErr := os.Stdout, os.Stderr
 	os.Stdout, os.Stderr = outF, errF
 	defer func() { os.Stdout, os.Stderr = realOut, realErr }()
@@ -130,13 +134,14 @@ func runC03(r *run) {
 	for h := 0; h < n; h++ {
 		log := &evLog{}
 		pool, settable := writerPool(log)
+		pool = append(pool, fileW) // writer 7: a bare *os.File (a log file): observed through its growth
 		length := g.intn(13)
 		if h < 12 {
 			length = h % 3
 		}
 		ops := make([]c03Op, length)
 		for i := range ops {
-			ops[i] = c03Op{name: c03OpNames[g.intn(len(c03OpNames))], lvl: lvls[g.intn(len(lvls))], w: g.intn(7)}
+			ops[i] = c03Op{name: c03OpNames[g.intn(len(c03OpNames))], lvl: lvls[g.intn(len(lvls))], w: g.intn(8)}
 			if g.chance(1, 3) && i > 0 { // bias towards touching earlier writers again (remove after add, duplicates)
 				ops[i].w = ops[g.intn(i)].w
 				ops[i].lvl = ops[g.intn(i)].lvl
@@ -240,7 +245,7 @@ func runC03(r *run) {
 		isSettable := map[int]bool{3: true, 4: true, 6: true}
 		for _, sev := range probes {
 			log.take()
-			o0, e0 := size(outF), size(errF)
+			o0, e0, f0 := size(outF), size(errF), size(fileW)
 			l.Logit(ctx, slog.Level(sev), "probe")
 			evs := log.take()
 			var tells []string
@@ -257,6 +262,13 @@ func runC03(r *run) {
 			}
 			if size(errF) > e0 {
 				writes = append(writes, 1001)
+			}
+			if f1 := size(fileW); f1 > f0 {
+				buf := make([]byte, f1-f0)
+				_, _ = fileW.ReadAt(buf, f0)
+				for i := 0; i < bytes.Count(buf, []byte{'\n'}); i++ { // one line per Write of this one-line record
+					writes = append(writes, 7)
+				}
 			}
 			sort.Ints(writes)
 			parts := append([]string{}, tells...)
